@@ -1157,6 +1157,41 @@ def fmt15(ctx: Ctx) -> None:
         raise AnalysisError(f"FMT-15: {n} non-ASCII literals found in the formatting methods (>= 7 confirmed by hand)")
 
 
-C18 = [fmt1, fmt2, fmt3, fmt5, fmt7, fmt10_11, fmt14, fmt15]
+def fmt16(ctx: Ctx) -> None:
+    """FMT-16 rendering does not depend on what was rendered before in the same call: a formatting method that records the
+    node it is rendering in state that travels with the options (a cycle guard: `opts.seen.add(id(self))`) removes it again on
+    every way out (discard / remove in a finally); otherwise the record means "ever rendered", and a Stack that is reachable
+    twice without any cycle is printed as a stub the second time.  Today no formatting method mutates the options."""
+    mod = ctx.P.mod("_types")
+    n = 0
+    for q, fn in mod.defs.items():
+        if not isinstance(fn, ast.FunctionDef) or not q.split(".")[-1].startswith("_format"):
+            continue
+        optv = next((a.arg for a in fn.args.args if a.arg in ("opts", "options")), None)
+        if optv is None:
+            continue
+        for c in ast.walk(fn):
+            if isinstance(c, ast.Call) and isinstance(c.func, ast.Attribute) and c.func.attr in ("add", "append", "update", "setdefault", "__setitem__") \
+                    and norm(c.func.value).startswith(optv + "."):
+                n += 1
+                cont = norm(c.func.value)
+                undone = any(isinstance(t, ast.Try) and any(isinstance(x, ast.Call) and isinstance(x.func, ast.Attribute) and x.func.attr in ("discard", "remove", "pop") and norm(x.func.value) == cont
+                                                             for fs in t.finalbody for x in ast.walk(fs)) for t in ast.walk(fn))
+                if undone:
+                    ctx.R.ok("FMT-16", f"{q}: {norm(c)[:50]} is undone in a finally")
+                else:
+                    ctx.R.fail("FMT-16", mod, c, f"{q} records `{norm(c)[:50]}` in state that is shared by the whole format() call and never removes it: a node reachable twice (without a cycle) "
+                               "is rendered in full the first time and as whatever the guard prints the second time, so the text no longer reflects the tree", construct=f"{q}: {cont} only grows")
+            elif isinstance(c, (ast.Assign, ast.AugAssign)):
+                tg = c.targets[0] if isinstance(c, ast.Assign) else c.target
+                if isinstance(tg, (ast.Attribute, ast.Subscript)) and norm(tg).startswith(optv + "."):
+                    n += 1
+                    ctx.R.fail("FMT-16", mod, c, f"{q} assigns `{norm(tg)[:40]}`: format options are inputs of the call, changing them while rendering makes later nodes render under other options",
+                               construct=f"{q}: options mutated")
+    if n == 0:
+        ctx.R.ok("FMT-16", "no formatting method mutates state reachable from the options")
+
+
+C18 = [fmt1, fmt2, fmt3, fmt5, fmt7, fmt10_11, fmt14, fmt15, fmt16]
 C19 = [fmt2, fmt4, fmt6, fmt8, fmt9, fmt12, fmt13]
 C20 = [cont7, mode_rules, mode4, ref1]
